@@ -1,3 +1,3 @@
--- This module serves as the root of the `AkVerif` library.
--- Import modules here that should be built as part of the library.
-import AkVerif.Basic
+-- root of the AkVerif library: models, lemmas, property theorems
+import AkVerif.Model.Util
+import AkVerif.Props.C17
